@@ -62,7 +62,7 @@ class Job:
                         twins=dict(expected_sat=0, got_sat=0), distinct=[], errors=[])
         self.name = spec["name"]
 
-    def explore(self, validate=True):
+    def explore(self, validate=True, compare_result=True):
         H.STATS.__init__()
         E.ENG.stats.update(feas_queries=0, feas_time=0.0, feas_unknown=0, paths=0, aborted=0)
         E.ENG.feas_timeout_ms = self.spec.get("feas_timeout_ms", 20000)
@@ -76,7 +76,7 @@ class Job:
                 # model of the path facts, so it is feasible after all
                 self.res["uncertain_paths"] = self.res.get("uncertain_paths", 0) + 1
             if validate:
-                ok, msg, tvin = O.validate_path(self.env, self.entry, self.cfg, t, self.vals)
+                ok, msg, tvin = O.validate_path(self.env, self.entry, self.cfg, t, self.vals, compare_result)
                 t.extra["tv_inputs"] = tvin
                 if ok is True:
                     self.res["tv"] += 1
